@@ -195,13 +195,13 @@ def build_trace(sessions, results, want_cmd=True):
     return recs, notes
 
 
-def run_sessions(v, sessions, workers=14, per_batch=None, general=None):
+def run_sessions(v, sessions, workers=14, per_batch=None, general=None, layout=None):
     """Execute sessions (grouped into batches, one pgcat per batch); returns results aligned."""
     if per_batch is None:
         per_batch = max(20, len(sessions) // (workers * 2) + 1)
     batches = []
     for i in range(0, len(sessions), per_batch):
-        batches.append({'sessions': sessions[i:i + per_batch], 'general': general})
+        batches.append(dict({'sessions': sessions[i:i + per_batch], 'general': general}, **(layout or {})))
     outs = core.run_parallel(routing.run_batch, batches, workers=workers)
     byid = {}
     for b, o in zip(batches, outs):
@@ -295,7 +295,12 @@ INVARIANT Emit
     for idx, s in enumerate(chosen):
         r2 = random.Random(seed * 7919 + idx)
         steps, meta = concretise_c05(r2, s)
-        sessions.append({'id': idx + 1, 'cfg': dict(s['cfg']), 'steps': steps, 'meta': meta, 'abstract': s['steps']})
+        cfg = dict(s['cfg'])
+        # a dimension the rule does not depend on: a [plugins] section present in the pool (Router.tla: PluginsConfigured)
+        if cfg.get('parser') and idx % 3 == 1:
+            cfg['plugins'] = {'table_access': {'enabled': idx % 2 == 0, 'tables': ['zz_not_used_by_any_statement']},
+                              'query_logger': {'enabled': False}}
+        sessions.append({'id': idx + 1, 'cfg': cfg, 'steps': steps, 'meta': meta, 'abstract': s['steps']})
     # group by config so each pgcat hosts few pools
     sessions.sort(key=lambda s: routing.cfg_key(s['cfg']))
     results = run_sessions(v, sessions)
@@ -789,7 +794,9 @@ def check_c06(prop, tier, seed):
     # ---- B. path agreement, landing and stickiness on a 3-shard pool
     paths = ['set_key', 'comment', 'literal', 'bind_text', 'bind_binary', 'bind_text_2nd', 'bind_binary_2nd']
     nsess = {'quick': 700, 'thorough': 12000}[tier]
-    for j in range(nsess):
+    # the same on a 12-shard pool (one primary per shard): shard numbers with two digits
+    plan = [(routing.NSHARDS, j) for j in range(nsess)] + [(12, j) for j in range(max(60, nsess // 5))]
+    for nsh, j in plan:
         idx += 1
         r2 = random.Random(seed * 613 + idx)
         steps, meta, abstract = [], [], []
@@ -801,7 +808,7 @@ def check_c06(prop, tier, seed):
                 path = paths[(j + len(steps)) % len(paths)]
                 cls = r2.choice(POS_CLASSES + (NEG_CLASSES if path not in ('set_key', 'literal') else []))
                 key = KEYCLASS[cls](r2)
-                ext = sha1_shard(key, routing.NSHARDS) if fn == 'sha1' else -1
+                ext = sha1_shard(key, nsh) if fn == 'sha1' else -1
                 abstract.append('%s:%s' % (path, cls))
                 if path == 'set_key':
                     text = spell_command(r2, 'set_key', str(key))
@@ -818,7 +825,7 @@ def check_c06(prop, tier, seed):
                     meta.append({'m': 'stmt', 'class': 'read', 'sql': sql, 'proto': 'extended' if st['kind'] == 'ext' else 'simple',
                                  'key': key, 'path': path + ':' + cls, 'ext': ext})
             elif what == 'set_shard':
-                k = r2.choice([0, 1, 2, 3, 5, 100])
+                k = r2.choice([0, 1, 2, 3, 5, 100] if nsh == 3 else [0, 1, 2, 3, 9, 10, 11, 12, 100])
                 abstract.append('set_shard:%d' % k)
                 text = spell_command(r2, 'set_shard', str(k))
                 steps.append({'kind': 'q', 'sql': text, 'tag': False})
@@ -826,7 +833,7 @@ def check_c06(prop, tier, seed):
                 steps.append({'kind': 'q', 'sql': 'SHOW SHARD', 'tag': False})
                 meta.append({'m': 'cmd', 'op': 'show_shard', 'arg': '', 'text': 'SHOW SHARD'})
             elif what == 'shard_comment':
-                k = r2.choice([0, 1, 2])
+                k = r2.randrange(nsh)
                 abstract.append('shard_comment:%d' % k)
                 sql = '/* shard_id: %d */ SELECT 1' % k
                 steps.append({'kind': 'q', 'sql': sql})
@@ -839,7 +846,11 @@ def check_c06(prop, tier, seed):
         # final probe: the selection persists
         steps.append({'kind': 'q', 'sql': 'SELECT 2'})
         meta.append({'m': 'stmt', 'class': 'read', 'sql': 'SELECT 2', 'proto': 'simple', 'path': 'sticky'})
-        sessions.append({'id': idx, 'cfg': cfg, 'steps': steps, 'meta': meta, 'family': 'paths', 'abstract': abstract})
+        sess = {'id': idx, 'cfg': cfg, 'steps': steps, 'meta': meta, 'family': 'paths', 'abstract': abstract}
+        if nsh != routing.NSHARDS:
+            sess['nshards'] = nsh
+            sess['layout12'] = True
+        sessions.append(sess)
     # out-of-range shard id comment: an error, never another shard
     for j in range(20 if tier == 'quick' else 200):
         idx += 1
@@ -848,8 +859,10 @@ def check_c06(prop, tier, seed):
         sql = '/* shard_id: %d */ SELECT 1' % k
         sessions.append({'id': idx, 'cfg': dict(PATH_CFG), 'steps': [{'kind': 'q', 'sql': sql}],
                          'meta': [{'m': 'oor', 'sql': sql}], 'family': 'oor', 'abstract': ['shard_comment_oor']})
-    sessions.sort(key=lambda s: routing.cfg_key(s['cfg']))
-    results = run_sessions(v, sessions, per_batch=40)
+    sessions.sort(key=lambda s: (bool(s.get('layout12')), routing.cfg_key(s['cfg'])))
+    small = [s for s in sessions if not s.get('layout12')]
+    wide = [s for s in sessions if s.get('layout12')]
+    results = run_sessions(v, small, per_batch=40) + run_sessions(v, wide, per_batch=20, layout={'nshards': 12, 'replicas': 0})
     # oracle self-check: TLA+ PgShard vs Python transcription vs src/sharding.rs vectors is done by TLC on the trace
     # (set_key events) and here for the Python side
     tr_sessions, tr_results = [], []
